@@ -4,6 +4,7 @@ import (
 	"bytes"
 	"fmt"
 	"math/rand/v2"
+	"net/http"
 	"strconv"
 	"strings"
 	"testing"
@@ -29,8 +30,11 @@ type c16Case struct {
 	// RotateAE: every poll of the session names its own Accept-Encoding (drawn per poll)
 	RotateAE bool `json:"accept_encoding_differs_per_poll"`
 	// StrayJ: a session opened as plain polling whose later polls carry a j parameter
-	StrayJ bool   `json:"plain_session_polls_with_j_parameter"`
-	Seed   string `json:"seed"`
+	StrayJ bool `json:"plain_session_polls_with_j_parameter"`
+	// OuterHeaders: an outer handler has already put its own defaults (Content-Type, Cache-Control)
+	// on every response before the engine is entered
+	OuterHeaders bool   `json:"outer_handler_presets_content_type"`
+	Seed         string `json:"seed"`
 }
 
 var c16AE = []string{"", "gzip", "deflate", "br", "zstd", "gzip, deflate", "br;q=1.0, gzip;q=0.5", "identity", "*", "x-br-custom", "xgzip", "bread, undeflated", "GZIP", "GZip", "DEFLATE;q=0.8", "Br", "ZStd", "gzip;q=0", "compress, zstd"}
@@ -46,6 +50,7 @@ func genC16(rng *rand.Rand) c16Case {
 	c.AcceptEnc = c16AE[rng.IntN(len(c16AE))]
 	c.RotateAE = rng.IntN(3) == 0
 	c.StrayJ = !c.JSONP && rng.IntN(4) == 0
+	c.OuterHeaders = rng.IntN(4) == 0
 	if c.JSONP {
 		c.J = c16J[rng.IntN(len(c16J))]
 		if rng.IntN(12) == 0 {
@@ -120,7 +125,11 @@ func runC16(c c16Case, rng *rand.Rand, r *rep.Report) (key, msg string, stats ma
 			so.SetAllowEIO3(true)
 			so.SetHttpCompression(&types.HttpCompression{Threshold: c.Threshold})
 			so.SetPingInterval(20 * time.Second)
-			w := rig.NewWorld(rig.Options{Server: so})
+			wo := rig.Options{Server: so}
+			if c.OuterHeaders {
+				wo.PreHeaders = http.Header{"Content-Type": {"application/json; charset=utf-8"}, "Cache-Control": {"max-age=3600"}}
+			}
+			w := rig.NewWorld(wo)
 			defer w.Finish()
 			cl, err := w.Connect(rig.ClientCfg{Rev: c.Rev, Transport: "polling", B64: c.B64, JSONP: c.JSONP, J: c.J, AcceptEnc: c.AcceptEnc})
 			rig.Wait()
@@ -243,6 +252,10 @@ func runC16(c c16Case, rng *rand.Rand, r *rep.Report) (key, msg string, stats ma
 				}
 				form := "v4"
 				ct := q.Header.Get("Content-Type")
+				if n := len(q.Header.Values("Content-Type")); n != 1 {
+					key, msg = "c16-content-type", fmt.Sprintf("poll #%d: %d Content-Type header fields %q", pi, n, q.Header.Values("Content-Type"))
+					return
+				}
 				isBinaryBody := false
 				if c.Rev == 3 {
 					form = "v3s"
